@@ -74,6 +74,12 @@ class Order:
                 if isinstance(n, ast.Assign) and any(isinstance(t, ast.Name) and t.id == e.id for t in n.targets):
                     vals.append(self.of(n.value, fn, ci, depth + 1, seen))
                 if isinstance(n, ast.Call) and isinstance(n.func, ast.Attribute) and isinstance(n.func.value, ast.Name) and n.func.value.id == e.id:
+                    if n.func.attr in ("append", "insert") and n.args:
+                        # elements arrive in the order of the enclosing loops
+                        for lp in [a for a in ancestors(n) if isinstance(a, ast.For)]:
+                            if lp is fn:
+                                break
+                            vals.append(self.of(lp.iter, fn, ci, depth + 1, seen))
                     if n.func.attr in ("update", "extend") and n.args:
                         vals.append(self.of(n.args[0], fn, ci, depth + 1, seen))
                     if n.func.attr in ("add", "discard"):
@@ -286,6 +292,11 @@ ORDER_SINK_ATTRS = [
     ("scenic.core.simulators", "Simulation", "agents", "the default schedule runs the agents' behaviours, and so their random draws and actions, in this order"),
 ]
 
+# local collections whose element order is observable
+ORDER_SINK_LOCALS = [
+    ("scenic.core.object_types", "Constructible._resolveSpecifiers", "specifiers", "the specifiers (the written ones, then the defaults) are evaluated in this order wherever their dependencies allow, which fixes the order of the random draws of their values"),
+]
+
 # Functions that may draw from the GLOBAL generators (the user-visible random stream).
 GLOBAL_RNG_OK = {"sampleGiven", "uniformPointInner", "genericSampler", "sampler", "appliedTo", "_generateInner"}
 GLOBAL_RNG_FROZEN = {
@@ -339,7 +350,22 @@ def check_sinks(ctx, R="C15.sinks"):
             )
         else:
             ctx.ok(R, ci.node, f"{cname}.{attr} is only ever extended in a program-defined order ({r})")
-    ctx.floor(R, n, 4, "order sinks")
+    for mod, q, local, why in ORDER_SINK_LOCALS:
+        fn = model.func(mod, q)
+        ci = model.cls(mod, q.split(".")[0])
+        n += 1
+        o = Order(model)
+        r = o.of(ast.Name(id=local, ctx=ast.Load()), fn, ci)
+        if r == UNORDERED:
+            ctx.finding(
+                R,
+                fn,
+                f"{q}: {local} unordered",
+                f"{q} fills `{local}` in a hash-dependent order ({' <- '.join(dict.fromkeys(o.trace))}); {why}, so the same program and seed give different scenes under another PYTHONHASHSEED",
+            )
+        else:
+            ctx.ok(R, fn, f"{q}: `{local}` is only ever extended in a program-defined order ({r})")
+    ctx.floor(R, n, 5, "order sinks")
     PRE = ("random.", "numpy.random.", "np.random.", "trimesh.sample.")
     NOT_DRAWS = ("getstate", "setstate", "get_state", "set_state", "default_rng", "seed", "Random", "RandomState", "Generator")
     nd = 0
